@@ -345,6 +345,7 @@ impl<L> ClientBuilder<L> {
 			sender,
 			from_frontend: from_front,
 			close_tx: send_receive_task_sync_tx.clone(),
+			disconnect_reason: disconnect_reason.clone(),
 			manager: manager.clone(),
 			max_buffer_capacity_per_subscription,
 			ping_interval,
@@ -404,6 +405,7 @@ impl<L> ClientBuilder<L> {
 			sender,
 			from_frontend: from_front,
 			close_tx: send_receive_task_sync_tx.clone(),
+			disconnect_reason: disconnect_reason.clone(),
 			manager: manager.clone(),
 			max_buffer_capacity_per_subscription,
 			ping_interval,
@@ -924,7 +926,8 @@ fn unparse_error(raw: &[u8]) -> Error {
 struct SendTaskParams<T: TransportSenderT, S> {
 	sender: T,
 	from_frontend: mpsc::Receiver<FrontToBack>,
-	close_tx: mpsc::Sender<Result<(), Error>>,
+	close_tx: mpsc::Sender<Result<(), Arc<Error>>>,
+	disconnect_reason: SharedDisconnectReason,
 	manager: ThreadSafeRequestManager,
 	max_buffer_capacity_per_subscription: usize,
 	ping_interval: IntervalStream<S>,
@@ -939,6 +942,7 @@ where
 		mut sender,
 		mut from_frontend,
 		close_tx,
+		disconnect_reason,
 		manager,
 		max_buffer_capacity_per_subscription,
 		mut ping_interval,
@@ -971,6 +975,14 @@ where
 		}
 	};
 
+	// The frontend reads the disconnect reason as soon as it notices that the channel is closed,
+	// thus the reason must be stored before that and not after the (possibly slow) transport close below.
+	let res = res.map_err(|e| {
+		let e = Arc::new(e);
+		set_disconnect_reason(&disconnect_reason, e.clone());
+		e
+	});
+
 	from_frontend.close();
 	let _ = sender.close().await;
 	let _ = close_tx.send(res).await;
@@ -978,7 +990,7 @@ where
 
 struct ReadTaskParams<R: TransportReceiverT, S> {
 	receiver: R,
-	close_tx: mpsc::Sender<Result<(), Error>>,
+	close_tx: mpsc::Sender<Result<(), Arc<Error>>>,
 	to_send_task: mpsc::Sender<FrontToBack>,
 	manager: ThreadSafeRequestManager,
 	max_buffer_capacity_per_subscription: usize,
@@ -1048,11 +1060,19 @@ where
 		}
 	};
 
-	let _ = close_tx.send(res).await;
+	let _ = close_tx.send(res.map_err(Arc::new)).await;
+}
+
+/// Store the reason why the background tasks terminated, the first reason wins.
+fn set_disconnect_reason(disconnect_reason: &SharedDisconnectReason, err: Arc<Error>) {
+	let mut reason = disconnect_reason.write().expect(NOT_POISONED);
+	if reason.is_none() {
+		*reason = Some(err);
+	}
 }
 
 async fn wait_for_shutdown(
-	mut close_rx: mpsc::Receiver<Result<(), Error>>,
+	mut close_rx: mpsc::Receiver<Result<(), Arc<Error>>>,
 	client_dropped: oneshot::Receiver<()>,
 	err_to_front: SharedDisconnectReason,
 ) {
@@ -1062,6 +1082,6 @@ async fn wait_for_shutdown(
 
 	// Send an error to the frontend if the send or receive task completed with an error.
 	if let Either::Left((Some(Err(err)), _)) = future::select(rx_item, client_dropped).await {
-		*err_to_front.write().expect(NOT_POISONED) = Some(Arc::new(err));
+		set_disconnect_reason(&err_to_front, err);
 	}
 }
